@@ -220,6 +220,8 @@ def _abstract_run(fn, name, val, roles, functions=None, _depth=0, free=None):
                         return False
         if isinstance(e, ast.UnaryOp) and isinstance(e.op, ast.Not):
             return not eval_bool(e.operand)
+        if isinstance(e, ast.IfExp):
+            return eval_bool(e.body) if eval_bool(e.test) else eval_bool(e.orelse)
         if isinstance(e, ast.BoolOp):
             vals_ = (eval_bool(x) for x in e.values)
             return all(vals_) if isinstance(e.op, ast.And) else any(vals_)
